@@ -67,6 +67,13 @@ hand-written model (`Ach.Props.C15.accept_monotone_iat_batch`); the translated p
 real `IATBatch.Validate` by the batchvalidate stream. -/
 def relaxExempt : List String := ["IATBatch.isBatchEntryCount", "IATBatch.verify", "IATBatch.Validate"]
 
+/-- C14 along the whole validation path (transitively: every function `File.ValidateWith` can reach is in the list):
+the only function holding a statement that modifies a record is `File.IsADV` (its two repairs of a missing batch
+header / control — the known mutator of `Ach.Props.C14.write_set_census`); an assignment to a field anywhere else
+would be an untranslatable statement and break `validators_translated` -/
+theorem validation_path_effects :
+    (validatorProgs.filter (fun p => hasEffect p.2)).map (·.1) = ["File.IsADV"] := by decide +kernel
+
 /-- every use of a relaxation flag has a relaxing shape -/
 theorem validators_relax_shape :
     (validatorProgs.filter (fun p => !relaxExempt.contains p.1)).all (fun p => relaxOK p.2) = true := by decide +kernel
